@@ -48,7 +48,10 @@ func init() {
 			c.unsupport("sort.Sort on non-slice "+at.String(), call.Pos())
 			return Val{K: KUnit}
 		}
-		pv := c.payload(args[0].S, at)
+		pv := c.evalExpr(st, call.Args[0]) // pure re-evaluation to get the unboxed slice header
+		if pv.K != KSlice {
+			pv = c.payload(args[0].S, at)
+		}
 		ref, off, ln := pv.ref(), pv.off(), pv.ln()
 		elem := sl.Elem()
 		ek := c.elemKey(elem)
@@ -69,28 +72,29 @@ func init() {
 			return ""
 		})
 		inRange := func(k string) string { return sAnd(sx("<=", "0", k), sx("<", k, ln)) }
+		absRange := func(j string) string { return sAnd(sx("<=", off, j), sx("<", j, sx("+", off, ln))) }
 		for _, cp := range comps {
 			// frame
 			c.assume(st, fmt.Sprintf("(forall ((r Int) (i Int)) (! (=> (not (and (= r %s) (<= %s i) (< i (+ %s %s)))) (= (%s r i) (%s r i))) :pattern ((%s r i))))",
 				ref, off, off, ln, cp.nw, cp.old, cp.nw))
 			// permutation
-			c.assume(st, fmt.Sprintf("(forall ((k Int)) (! (=> %s (= (%s %s (+ %s k)) (%s %s (+ %s (%s k))))) :pattern ((%s %s (+ %s k)))))",
-				inRange("k"), cp.nw, ref, off, cp.old, ref, off, perm, cp.nw, ref, off))
+			c.assume(st, fmt.Sprintf("(forall ((j Int)) (! (=> %s (= (%s %s j) (%s %s (+ %s (%s (- j %s)))))) :pattern ((%s %s j))))",
+				absRange("j"), cp.nw, ref, cp.old, ref, off, perm, off, cp.nw, ref))
 		}
 		c.assume(st, fmt.Sprintf("(forall ((k Int)) (! (=> %s (and %s (= (%s (%s k)) k))) :pattern ((%s k))))", inRange("k"), inRange(sx(perm, "k")), inv, perm, perm))
 		c.assume(st, fmt.Sprintf("(forall ((k Int)) (! (=> %s (and %s (= (%s (%s k)) k))) :pattern ((%s k))))", inRange("k"), inRange(sx(inv, "k")), perm, inv, inv))
 		if n, ok := at.(*types.Named); ok && n.Obj().Name() == "BySegment" {
 			// sorted: for a < b not Less(b, a), Less = lexicographic order on normalised segments
 			c.trusted["sort.Sort leaves the slice ordered w.r.t. BySegment.Less (licensed by lemmas segLessIrreflexive/Transitive/IncomparableTransitive)"] = true
-			a0 := sx(comps[0].nw, ref, sx("+", off, "a"))
-			a1 := sx(comps[1].nw, ref, sx("+", off, "a"))
-			b0 := sx(comps[0].nw, ref, sx("+", off, "b"))
-			b1 := sx(comps[1].nw, ref, sx("+", off, "b"))
+			a0 := sx(comps[0].nw, ref, "a")
+			a1 := sx(comps[1].nw, ref, "a")
+			b0 := sx(comps[0].nw, ref, "b")
+			b1 := sx(comps[1].nw, ref, "b")
 			less := func(x0, x1, y0, y1 string) string {
 				return sOr(sx("<", sx("imin", x0, x1), sx("imin", y0, y1)),
 					sAnd(sx("=", sx("imin", x0, x1), sx("imin", y0, y1)), sx("<", sx("imax", x0, x1), sx("imax", y0, y1))))
 			}
-			c.assume(st, fmt.Sprintf("(forall ((a Int) (b Int)) (! (=> (and (<= 0 a) (< a b) (< b %s)) (not %s)) :pattern (%s %s)))", ln, less(b0, b1, a0, a1), a0, b0))
+			c.assume(st, fmt.Sprintf("(forall ((a Int) (b Int)) (! (=> (and (<= %s a) (< a b) (< b (+ %s %s))) (not %s)) :pattern (%s %s)))", off, off, ln, less(b0, b1, a0, a1), a0, b0))
 		}
 		return Val{K: KUnit}
 	}
